@@ -84,7 +84,7 @@ static void cross_cases(Harness &H, const std::string &d0, const Grid<S> &g, siz
 
 static void run(Harness &H) {
   size_t n = 5;
-  std::vector<std::string> fams = H.thorough() ? std::vector<std::string>{"nonuni", "far", "neg"} : std::vector<std::string>{"nonuni", "far"};
+  std::vector<std::string> fams = H.thorough() ? std::vector<std::string>{"nonuni", "far", "neg", "sym"} : std::vector<std::string>{"nonuni", "far", "sym"};
   for (auto fam : fams) {
     auto pts = grid_family(fam, n);
     Grid<S> g = mkgrid<S>(pts);
